@@ -90,7 +90,8 @@ SEEDS.update({
           'max_finished_executions > batch_size > 0 and more than one batch of surplus'),
  'C19b': ('validate_url returns as soon as the host is on the allow-list',
           'allowed_hosts configured and an allow-listed host that resolves into a denied network'),
- 'C20b': ('(see notes.md)', '(see notes.md)'),
+ 'C20b': ('get_running_expired_sync_action_executions really applies the batch limit (query = query.limit(limit))',
+          'at least batch_size expired running actions the checker skips (ad-hoc runs without a task) created before the lost action of a workflow: the batch is always filled by them'),
 })
 
 
